@@ -45,7 +45,7 @@ claim("C04", "model_checking",
       "TLC explores every statement sequence of PlanCatalog.tla up to 6 (7) statements over 3 tables (FKTargetsExist, Once). The harness plans, with mysql.DefaultPlan and postgres.DefaultPlan, every directed "
       "FK graph with self loops over <= 3 tables x every created/dropped/kept-and-modified split, 4-table graphs for create-all/drop-all (all 65,536 in the thorough tier, a seeded 5% sample in quick) and random 5..8-table "
       "graphs, and every ordered pair of 27 definitions (referenced table x ON UPDATE x ON DELETE) of one foreign key modified in place; each statement becomes a catalogue event and TLC must be able to consume the plan "
-      "(parent exists, constraint name free, index with a key part) and end in the wanted catalogue with every table created/dropped at most once. Planner errors, panics and timeouts are violations.",
+      "(parent exists, constraint name free, index with a key part, MySQL refuses to drop a column a live foreign key uses, PostgreSQL drops the key with it) and end in the wanted catalogue with every table created/dropped at most once. Planner errors, panics and timeouts are violations.",
       "Trusted: the SQL tokeniser of the harness; engine acceptance rules as written in PlanCatalog.tla.",
       "3 C04")
 claim("C16", "model_checking",
@@ -82,7 +82,7 @@ claim("C01", "model_checking",
       "TLC exports every admissible single edit to and from four seed catalogues (autoincrement, composite and reordered keys, WITHOUT ROWID, STRICT, stored / virtual generated columns, unique / multi-column / descending / partial "
       "indexes, named / unnamed checks, self / cross foreign keys with all five actions; about 2,000 pairs). For each pair the harness creates the current state on a real SQLite file with its own DDL renderer, re-projects it as a "
       "self-check, populates it, lets Atlas inspect / diff (normalized) / plan, executes the plan and projects the result with pragmas only; TLC requires after = desired, no failing statement and an empty second diff. A CLI slice repeats "
-      "the flow through `schema apply` / `schema diff` with HCL. Without an engine, for MySQL and PostgreSQL: every ordered pair of 24 definitions of one column and of 13 definitions of one index goes through the dialect's "
+      "the flow through `schema apply` / `schema diff` with HCL. Without an engine, for MySQL and PostgreSQL: every ordered pair of 24 definitions of one column and of 17 definitions of one index or unique constraint, and columns dropped together with the indexes that use them, go through the dialect's "
       "differ and planner, and the clauses of the statements, interpreted by ColCatalog.tla (ColCatalogTrace.tla), must end in the desired columns and indexes.",
       "Trusted: the harness's DDL renderer and pragma projection (self-checked on every start state); SQLite 3.46 of mattn/go-sqlite3; bounded feature grid (2 tables, 3 columns).",
       "3 C01")
